@@ -211,7 +211,25 @@ def check(ctx):
                                 keys = []
                                 other = []
                                 aliases = []  # unexpanded spellings of an item-presence test (guard_atoms lists both)
+                                canon_atoms = set()
                                 for txt, p in g.guard_atoms(n):
+                                    if txt.isidentifier():
+                                        # a boolean carried in a local (residue of an inlined predicate): what decides it are the
+                                        # expressions it is bound to - constants aside
+                                        for dn in g.stmt_nodes():
+                                            if isinstance(dn.ast, ast.Assign) and any(isinstance(t_, ast.Name) and t_.id == txt for t_ in dn.ast.targets) \
+                                                    and not isinstance(dn.ast.value, ast.Constant):
+                                                try:
+                                                    canon_atoms.add((ast.unparse(g.expand(dn.ast.value, at=dn)), p))
+                                                except RecursionError:
+                                                    canon_atoms.add((ast.unparse(dn.ast.value), p))
+                                        continue
+                                    try:
+                                        txt = ast.unparse(g.expand(ast.parse(txt, mode="eval").body, at=n))   # locals of inlined helpers -> what they stand for
+                                    except (SyntaxError, RecursionError):
+                                        pass
+                                    canon_atoms.add((txt, p))
+                                for txt, p in sorted(canon_atoms):
                                     if p and " in " in txt and txt.endswith("accessors"):
                                         kv = fold_key(repo, m, ast.parse(txt.split(" in ")[0], mode="eval").body)
                                         if kv:
@@ -330,6 +348,34 @@ def check(ctx):
         else:
             ctx.ob("R4", f"GeckoWaterCare.{member}::total", True, "", sample={"rule": "R4", "member": member, "modes_evaluated": 257})
     ctx.count("R4:watercare_evaluations", n_eval)
+    # a spa reports its mode again and again: every byte after every kind of earlier report (a named mode, the last named
+    # mode, an unnamed byte, nothing yet).  Arguments of logging calls are evaluated, as Python does at every level.
+    n_seq = 0
+    cw = repo.method("GeckoWaterCare", "change_watercare_mode")
+    for prev in (None, 0, 4, 5, 200):
+        bad_seq = None
+        for v in list(range(256)) + [None]:
+            it4 = Interp(repo, max_depth=8)
+            it4.log_hook = lambda level, args: None
+            try:
+                obj = it4.apply(ClassRef(wc), [_mf(_Rec(), {})[0]], {})
+                if prev is not None:
+                    it4.call(cw, obj, [prev])
+            except (PyRaise, Undecided) as e:
+                raise AnalysisError(f"GeckoWaterCare(facade).change_watercare_mode({prev}) on the model facade: {e}")
+            try:
+                it4.steps = 0
+                it4.call(cw, obj, [v])
+                for member in ("__str__", "mode", "monitor"):
+                    it4.call(repo.method("GeckoWaterCare", member), obj, [])
+                n_seq += 1
+            except PyRaise as e:
+                bad_seq = bad_seq or (v, e.what)
+            except Undecided as e:
+                raise AnalysisError(f"GeckoWaterCare.change_watercare_mode({v}) after {prev}: {e}")
+        ctx.ob("R4", f"GeckoWaterCare.change_watercare_mode::after={prev}::every-byte", bad_seq is None,
+               f"a water-care report of mode byte {bad_seq[0] if bad_seq else ''} after an earlier report of {prev} raises {bad_seq[1] if bad_seq else ''}: the facade's update loop dies on a byte a spa can report", cw.loc)
+    ctx.count("R4:watercare_report_sequences", n_seq)
 
     # ---- R5 table types ---------------------------------------------------------------------
     c = repo.cls("GeckoConstants")
